@@ -692,6 +692,8 @@ func trPlacement() string {
 	// what a descriptor wants depends on the descriptor (role-level binds), not only on its class:
 	// the OFFERS handler must ask GetWantsForDescriptor for the descriptor at hand each time
 	checkWantsPerDescriptor()
+	// "the template" is what was loaded last: the class cache stores every class it is handed
+	checkCacheStoresAlways()
 	var b strings.Builder
 	b.WriteString("(* regenerated on every run by harness/cmd/translate (placement) from\n   makeTaskForMesosResources in core/task/scheduler.go *)\n")
 	b.WriteString("From Verif Require Import Common.\nOpen Scope N_scope.\n")
@@ -851,5 +853,108 @@ func checkWantsPerDescriptor() {
 	}
 	if calls == 0 {
 		die("placement: resourceOffers no longer calls GetWantsForDescriptor")
+	}
+}
+
+// checkCacheStoresAlways fails the run when some path through Classes.UpdateClass (package
+// core/task/taskclass) ends without the class it was handed having been stored: an assignment whose
+// right-hand side is the class parameter (class, *class, a copy of it) and whose left-hand side goes
+// through the receiver's map or an entry taken from it. The model (cache_update) is last-write-wins.
+func checkCacheStoresAlways() {
+	pkg := loadSymPkg("core/task/taskclass")
+	var fd *ast.FuncDecl
+	for _, d := range pkg.funcs["UpdateClass"] {
+		if recvTypeName(d) == "Classes" {
+			fd = d
+		}
+	}
+	if fd == nil || fd.Type.Params == nil {
+		die("placement: method Classes.UpdateClass not found in package core/task/taskclass")
+	}
+	// the class parameter: the one whose type mentions Class
+	classParam := ""
+	for _, fl := range fd.Type.Params.List {
+		if mentionsIdent(fl.Type, "Class") {
+			for _, n := range fl.Names {
+				classParam = n.Name
+			}
+		}
+	}
+	if classParam == "" {
+		die("placement: Classes.UpdateClass has no parameter of type Class")
+	}
+	isStore := func(s ast.Stmt) bool {
+		as, ok := s.(*ast.AssignStmt)
+		if !ok || as.Tok != token.ASSIGN {
+			return false
+		}
+		for i, r := range as.Rhs {
+			if !mentionsIdent(r, classParam) || i >= len(as.Lhs) {
+				continue
+			}
+			switch as.Lhs[i].(type) {
+			case *ast.IndexExpr, *ast.StarExpr: // c.classMap[key] = class ; *cached = *class
+				return true
+			}
+		}
+		return false
+	}
+	endsInReturn := func(l []ast.Stmt) bool {
+		if len(l) == 0 {
+			return false
+		}
+		_, ok := l[len(l)-1].(*ast.ReturnStmt)
+		return ok
+	}
+	var walk func(l []ast.Stmt, stored bool) bool
+	walk = func(l []ast.Stmt, stored bool) bool {
+		for _, st := range l {
+			switch x := st.(type) {
+			case *ast.ReturnStmt:
+				if !stored {
+					die("placement: Classes.UpdateClass returns at %s without having stored the class it was handed "+
+						"(the model is last-write-wins: the template is what was loaded last)", pkg.fset.Position(x.Pos()))
+				}
+			case *ast.BlockStmt:
+				stored = walk(x.List, stored)
+			case *ast.IfStmt:
+				thenStored := walk(x.Body.List, stored)
+				elseStored, elseRet := stored, false
+				switch e := x.Else.(type) {
+				case *ast.BlockStmt:
+					elseStored, elseRet = walk(e.List, stored), endsInReturn(e.List)
+				case *ast.IfStmt:
+					elseStored = walk([]ast.Stmt{e}, stored)
+				}
+				switch {
+				case endsInReturn(x.Body.List):
+					stored = elseStored
+				case elseRet:
+					stored = thenStored
+				default:
+					stored = thenStored && elseStored
+				}
+			case *ast.SwitchStmt:
+				all, hasDefault := true, false
+				for _, cc := range x.Body.List {
+					cl := cc.(*ast.CaseClause)
+					if cl.List == nil {
+						hasDefault = true
+					}
+					if !walk(cl.Body, stored) && !endsInReturn(cl.Body) {
+						all = false
+					}
+				}
+				stored = stored || (all && hasDefault)
+			default:
+				if isStore(st) {
+					stored = true
+				}
+			}
+		}
+		return stored
+	}
+	if !walk(fd.Body.List, false) {
+		die("placement: Classes.UpdateClass can end without having stored the class it was handed")
 	}
 }
